@@ -81,6 +81,20 @@ def run(pid, tier, seed):
                     nb = name.encode().replace("\ue000".encode(), b"caf\xe9")
                     lines.append(json.dumps({"hex": nb.hex(), "text": text}))
                     meta.append((name if not nonutf else repr(nb), comps, want_r, want_a, text))
+        # InvarianceInsert applied many times over: numeric / unrecognised components inserted at any position from the
+        # second on never change the class -- names as rotation schemes make them (wtmp.2023.01.01.12.00.00.1.old.gz)
+        for (_, comps, cls) in (names if tier == "thorough" else rng.sample(names, min(len(names), 400))):
+            words = [rng.choice(same_class.get(w, [w])) for w in comps]
+            for _ in range(rng.choice([5, 8, 9, 14, 40])):
+                words.insert(rng.randrange(1, len(words) + 1), rng.choice(["1", "2023", "01", "12", "00", "old", "bak", "host", "example", "com"]))
+            name = ".".join(spell(w, rng.choice([0, 0, 1]), rng) for w in words)
+            for text in (False, True):
+                want_r, want_a = cls[0], cls[1]
+                if want_r == "unparsable":
+                    want_a = "plain" if not text else want_a
+                    want_r = "text" if text else "unparsable"
+                lines.append(json.dumps({"hex": name.encode().hex(), "text": text}))
+                meta.append((name, comps, want_r, want_a, text))
         # arbitrary names: termination without panic
         arb = [b".", b"..", b"...", b"....", b"", b".log", b"log.", b"~", b"-~,?;", b"a" * 4096, (b"x." * 2000) + b"gz",
                b"\xff\xfe.log", b"\xc3\x28.wtmp.gz", b"wtmp.\xff", b".gz", b".gz.gz.gz", b"1", b"1.2.3.4", b"tar", b".tar", b"a.tar.gz"]
